@@ -42,7 +42,8 @@ def sample_args(rnd, n):
 
 
 def renderer_env(kind):
-    """PATH manipulation selecting the external text-merge helper: 'git', 'diff3' or 'builtin'.
+    """PATH manipulation selecting the external helpers found on the machine: 'git' (git+diff), 'diff3' (diff3+diff), 'builtin'
+    (none), 'diff' (diff without diff3 -- busybox-style), 'diff3only', 'gitonly', 'all'.
     Returns a context manager."""
     import contextlib
     import shutil
@@ -53,7 +54,9 @@ def renderer_env(kind):
         old = os.environ.get('PATH', '')
         d = tempfile.mkdtemp(prefix='nbdime-verif-path-')
         try:
-            keep = {'git': ['git', 'diff'], 'diff3': ['diff3', 'diff'], 'builtin': []}[kind]
+            # machines: everything / diffutils without git / nothing, and the partial installations in between
+            keep = {'git': ['git', 'diff'], 'diff3': ['diff3', 'diff'], 'builtin': [],
+                    'diff': ['diff'], 'diff3only': ['diff3'], 'gitonly': ['git'], 'all': ['git', 'diff', 'diff3']}[kind]
             for tool in keep:
                 src = shutil.which(tool, path=old)
                 if src:
